@@ -13,6 +13,7 @@ from .. import cats, common, docgen as D, kdoc as K, malformed as MF, snapshot a
 from ..common import Bad, Result
 
 ID = 'C20'
+SHARDS_QUICK = 4
 TC = kp.TokenCategory
 CONSTS0 = SN.constants()  # the converters read BEKERN_CATEGORIES: an API call must not change what they will use
 RULE = ('Hypothesis documents (profile "full": non-ASCII lyrics, quotes, commas) rendered with LF or CRLF line ends, with '
@@ -280,8 +281,8 @@ def check(case):
 
 
 def run(ctx):
-    ctx.run_hypothesis(cases(), check, max_examples=80 if ctx.quick else 700, label='files')
-    ctx.run_hypothesis(cases().map(lambda c: dict(c, subprocess=True)), check, max_examples=2 if ctx.quick else 6, salt=1, label='subprocess')
+    ctx.run_hypothesis(cases(), check, max_examples=28 if ctx.quick else 700, label='files')
+    ctx.run_hypothesis(cases().map(lambda c: dict(c, subprocess=True)), check, max_examples=1 if ctx.quick else 6, salt=1, label='subprocess')
 
 
 def replay(case):
